@@ -309,7 +309,7 @@ func (e *Exec) cev(st *State, x ast.Expr, env *cenv) Val {
 			v := e.cev(st, x.High, env)
 			hi = &v
 		}
-		if e.binders > 0 && lo != nil && lo.T.S != "0" && isSlcSort(base.T.Sort) {
+		if e.sc.binders > 0 && lo != nil && lo.T.S != "0" && isSlcSort(base.T.Sort) {
 			e.fail(x.Pos(), "contract: slice with non-zero low bound under a binder")
 		}
 		return e.sliceVal(st, base, lo, hi, x.Pos(), false)
@@ -632,9 +632,9 @@ func (e *Exec) quant(st *State, forall bool, lit *ast.FuncLit, env *cenv) Val {
 	if !ok || len(ret.Results) != 1 {
 		e.fail(lit.Pos(), "contract: malformed quantifier body")
 	}
-	e.binders++
+	e.sc.binders++
 	body := e.cev(st, ret.Results[0], n)
-	e.binders--
+	e.sc.binders--
 	q := "forall"
 	b := body.T
 	if forall {
@@ -678,21 +678,21 @@ func (e *Exec) specCall(st *State, sp *SpecFunc, args []Val, env *cenv, pos toke
 			e.sc.decls = append(e.sc.decls, fmt.Sprintf("(declare-fun %s (%s) %s)", fname, strings.Join(sorts, " "), rs))
 		case sp.Rec:
 			e.sc.decls = append(e.sc.decls, fmt.Sprintf("(declare-fun %s (%s) %s)", fname, strings.Join(sorts, " "), rs))
-			e.binders++
+			e.sc.binders++
 			saved := e.inContract
 			e.inContract++
 			body := e.cev(st, sp.Body, senv)
 			e.inContract = saved
-			e.binders--
+			e.sc.binders--
 			app := "(" + fname + " " + strings.Join(names, " ") + ")"
 			e.sc.Assert(T(SBool, fmt.Sprintf("(forall (%s) (! (= %s %s) :pattern (%s)))", strings.Join(ps, " "), app, body.T.S, app)))
 		default:
-			e.binders++
+			e.sc.binders++
 			saved := e.inContract
 			e.inContract++
 			body := e.cev(st, sp.Body, senv)
 			e.inContract = saved
-			e.binders--
+			e.sc.binders--
 			if body.T.Sort != rs {
 				e.fail(pos, "contract: spec %s body has sort %s, declared %s", sp.Name, body.T.Sort, rs)
 			}
